@@ -420,21 +420,21 @@ def subchecks(tier):
              "callable": "callable", "direct": "tl_truncated_svd"}
     for method in METHODS:
         nm = short[method]
-        subs.append(SubCheck(f"{nm}/shape", _case(method), o_shape, quick=300, thorough=3000))
-        subs.append(SubCheck(f"{nm}/sigma", _case(method), o_sigma, quick=300, thorough=3000))
-        subs.append(SubCheck(f"{nm}/orth", _case(method), o_orth, quick=300, thorough=3000))
-        subs.append(SubCheck(f"{nm}/recon", _case(method), o_recon, quick=300, thorough=3000))
+        subs.append(SubCheck(f"{nm}/shape", _case(method), o_shape, quick=500, thorough=4000))
+        subs.append(SubCheck(f"{nm}/sigma", _case(method), o_sigma, quick=500, thorough=4000))
+        subs.append(SubCheck(f"{nm}/orth", _case(method), o_orth, quick=500, thorough=4000))
+        subs.append(SubCheck(f"{nm}/recon", _case(method), o_recon, quick=500, thorough=4000))
         if method != "direct":
-            subs.append(SubCheck(f"{nm}/flip", _case(method, force_flip=True), o_flip, quick=300, thorough=3000))
+            subs.append(SubCheck(f"{nm}/flip", _case(method, force_flip=True), o_flip, quick=500, thorough=4000))
     # non-negative option (D18): own sub-checks, one per option value x method family
     for nn, tag in ((True, "true"), ("nndsvd", "nndsvd"), ("nndsvda", "nndsvda")):
         for method in ("truncated_svd", "randomized_svd"):
             subs.append(SubCheck(f"nonneg/{tag}/{short[method]}", _case(method, classes=NN_CLASSES, nn=nn), o_nonneg,
-                                 quick=250, thorough=2500))
+                                 quick=400, thorough=3000))
     # integer-dtype inputs
     for method in ("truncated_svd", "symeig_svd", "randomized_svd"):
         subs.append(SubCheck(f"int_dtype/{short[method]}", _case(method, classes=INT_CLASSES), o_intdtype,
-                             quick=250, thorough=2500))
+                             quick=400, thorough=3000))
     return subs
 
 
